@@ -211,7 +211,11 @@ inline bool timed_waiting(const Th& t) { return (t.st == S_WAIT_COND || t.st == 
 void progress() { for (int i = 0; i < E.nth; ++i) E.th[i].poll_mark = false; }
 
 int take_choice(int n, uint64_t costmask) {
-    if (E.npts >= MAXPTS) fatal("harness/too-many-decision-points", "more than 4096 decision points in one execution");
+    // The harness bodies are finite and small (the unchanged tree needs at most a few hundred decision points per execution): an execution
+    // that is still offering choices after 4096 of them is going round in a loop that never blocks - threads polling shared state that no
+    // longer changes (e.g. producers that see a stale "full" while the consumer waits for data). Reported like the step cap, with the
+    // threads' states; not a harness error.
+    if (E.npts >= MAXPTS) fatal("livelock/decision-point-cap", "more than 4096 decision points in one execution, threads still runnable: " + describe_threads());
     int c = E.npts < E.prefix_len ? E.prefix[E.npts] : 0;
     if (c >= n) fatal("harness/replay-divergence", "recorded choice " + std::to_string(c) + " out of range (" + std::to_string(n) + " alternatives) at decision point " + std::to_string(E.npts) + ": the execution is not deterministic");
     Point& p = E.pts[E.npts];
